@@ -22,9 +22,11 @@ import (
 
 	"github.com/gorilla/mux"
 	"github.com/pingcap/errors"
+	"github.com/pingcap/log"
 	"github.com/tikv/pd/pkg/apiutil"
 	"github.com/tikv/pd/pkg/errs"
 	"github.com/tikv/pd/server"
+	"github.com/tikv/pd/server/config"
 	"github.com/tikv/pd/server/schedule/placement"
 	"github.com/unrolled/render"
 )
@@ -78,14 +80,17 @@ func (h *ruleHandler) SetAll(w http.ResponseWriter, r *http.Request) {
 	if err := apiutil.ReadJSONRespondError(h.rd, w, r.Body, &rules); err != nil {
 		return
 	}
+	oldReplication := h.svr.GetReplicationConfig()
 	for _, v := range rules {
 		if err := h.syncReplicateConfigWithDefaultRule(v); err != nil {
+			h.restoreReplicateConfig(oldReplication)
 			h.rd.JSON(w, http.StatusBadRequest, err.Error())
 			return
 		}
 	}
 	if err := cluster.GetRuleManager().SetKeyType(h.svr.GetConfig().PDServerCfg.KeyType).
 		SetRules(rules); err != nil {
+		h.restoreReplicateConfig(oldReplication)
 		if errs.ErrRuleContent.Equal(err) || errs.ErrHexDecodingString.Equal(err) {
 			h.rd.JSON(w, http.StatusBadRequest, err.Error())
 		} else {
@@ -213,12 +218,14 @@ func (h *ruleHandler) Set(w http.ResponseWriter, r *http.Request) {
 		return
 	}
 	oldRule := cluster.GetRuleManager().GetRule(rule.GroupID, rule.ID)
+	oldReplication := h.svr.GetReplicationConfig()
 	if err := h.syncReplicateConfigWithDefaultRule(&rule); err != nil {
 		h.rd.JSON(w, http.StatusBadRequest, err.Error())
 		return
 	}
 	if err := cluster.GetRuleManager().SetKeyType(h.svr.GetConfig().PDServerCfg.KeyType).
 		SetRule(&rule); err != nil {
+		h.restoreReplicateConfig(oldReplication)
 		if errs.ErrRuleContent.Equal(err) || errs.ErrHexDecodingString.Equal(err) {
 			h.rd.JSON(w, http.StatusBadRequest, err.Error())
 		} else {
@@ -244,6 +251,17 @@ func (h *ruleHandler) syncReplicateConfigWithDefaultRule(rule *placement.Rule) e
 		}
 	}
 	return nil
+}
+
+// restoreReplicateConfig undoes syncReplicateConfigWithDefaultRule for a request that is refused after all:
+// the replication config (and with it the count of the default rule) goes back to what it was.
+func (h *ruleHandler) restoreReplicateConfig(old *config.ReplicationConfig) {
+	if h.svr.GetReplicationConfig().MaxReplicas == old.MaxReplicas {
+		return
+	}
+	if err := h.svr.SetReplicationConfig(*old); err != nil {
+		log.Error("failed to restore the replication config after a refused rule update", errs.ZapError(err))
+	}
 }
 
 // @Tags rule
